@@ -420,6 +420,11 @@ func drawC07(t *rapid.T) c07Case {
 		n := badName()
 		c.Policy.Groups[gi].Conds[ei].Name = n
 		c.Injected = fmt.Sprintf("unknown name %q in conditional entry %d of group %d", n, ei, gi)
+		if rapid.IntRange(0, 2).Draw(t, "withoutConditions") == 0 {
+			// ... in an entry that carries no condition at all: the name is unknown all the same
+			c.Policy.Groups[gi].Conds[ei].Conds = nil
+			c.Injected += " (entry without conditions)"
+		}
 	case 6:
 		var cands []int
 		for gi, g := range c.Policy.Groups {
